@@ -199,6 +199,110 @@ def history_probes(ctx, lt, ivs, arr_in, arr_snapshot, case, hist):
                       case={'ivs': ivs, 'scale': SCALE, 'history': hist}, impl=got[:6])
 
 
+def edge_rounding_probe(ctx, Livetime):
+    """float probe (no model): uniforms within an ulp below every cumulative interval boundary, at MJD-like
+    magnitudes where `lower + y` rounds up to the excluded upper edge (fixed by de40f4d); the drawn time must be
+    in on-time and inside the window."""
+    sets = [
+        [[58000., 58001.], [58002., 58003.]],
+        [[58000., 58000.5], [58000.5, 58001.], [58003.25, 58010.]],
+        [[0.125, 1.], [2., 3.5]],
+        [[-1., -0.5], [0., 0.25], [7., 8.]],
+    ]
+    for arr in sets:
+        a = np.array(arr, dtype=np.float64)
+        lt = Livetime(a)
+        for (t1, t2) in [(None, None), (a[0, 0] + 0.25 * (a[0, 1] - a[0, 0]), a[-1, 1] - 0.25 * (a[-1, 1] - a[-1, 0])),
+                         (None, a[0, 0] + 0.75 * (a[0, 1] - a[0, 0])), (a[-1, 0], None)]:
+            lo = a[0, 0] if t1 is None else t1
+            hi = a[-1, 1] if t2 is None else t2
+            clipped = [(max(l, lo), min(u, hi)) for l, u in arr if lo < u and l <= hi]
+            widths = [u - l for l, u in clipped]
+            L = sum(widths)
+            if L <= 0:
+                continue
+            cum = np.cumsum(widths) / L
+            xs = []
+            for f in cum:
+                xs += [float(np.nextafter(f, 0)), float(np.nextafter(np.nextafter(f, 0), 0)), float(min(f, np.nextafter(1., 0)))]
+            xs += [1 - 2 ** -53, 0.0]
+            xs = [x for x in xs if 0 <= x < 1]
+            kw = {}
+            if t1 is not None:
+                kw['t_min'] = t1
+            if t2 is not None:
+                kw['t_max'] = t2
+            ctx.count('edge_rounding_draws', len(xs))
+            try:
+                o = lt.draw_ontimes(StubRSS(xs), len(xs), **kw)
+            except Exception as ex:
+                ctx.violation('Livetime.draw_ontimes', 'raises-' + exc_name(ex), 'raises in the edge-rounding probe',
+                              case={'float_ivs': arr, 'window': (t1, t2), 'xs': [float.hex(x) for x in xs]})
+                continue
+            for x, v in zip(xs, o):
+                v = float(v)
+                on = any(l <= v < u for l, u in arr)
+                if not on or not (lo <= v < hi):
+                    ctx.violation('Livetime.draw_ontimes', 'upper-edge-drawn',
+                                  f'uniform {float.hex(x)} gives {v!r}: not in on-time inside the window',
+                                  case={'float_ivs': arr, 'window': (t1, t2), 'x': float.hex(x)}, impl=v,
+                                  predicate='drawn time in on-time inside the requested window (half-open intervals)')
+                    break
+
+
+def integrity_stream(ctx, Livetime, rng, model_exprs, checks, n):
+    """malformed stream for the constructor's own integrity check (theorem C14_integrity: the check accepts exactly
+    the sorted, non-overlapping interval lists): overlapping, unsorted, negative-length, touching, zero-length;
+    wrong dtype / ndim / shape must be rejected too (TypeError / ValueError)."""
+    for k in range(n):
+        m = rng.choice([1, 2, 3, 4, 6])
+        edges = sorted(rng.sample(range(-40, 200), 2 * m))
+        ivs = [(edges[2 * i] * UNIT, edges[2 * i + 1] * UNIT) for i in range(m)]
+        kind = rng.choice(['ok', 'ok', 'swap-edges', 'overlap', 'unsorted', 'touch', 'zero'])
+        i = rng.randrange(m)
+        if kind == 'swap-edges':
+            ivs[i] = (ivs[i][1], ivs[i][0])
+        elif kind == 'overlap' and m > 1:
+            i = rng.randrange(m - 1)
+            ivs[i] = (ivs[i][0], ivs[i + 1][0] + UNIT // 2)
+        elif kind == 'unsorted' and m > 1:
+            i = rng.randrange(m - 1)
+            ivs[i], ivs[i + 1] = ivs[i + 1], ivs[i]
+        elif kind == 'touch' and m > 1:
+            i = rng.randrange(m - 1)
+            ivs[i] = (ivs[i][0], ivs[i + 1][0])
+        elif kind == 'zero':
+            ivs[i] = (ivs[i][0], ivs[i][0])
+        ctx.count('integrity:' + kind)
+        arr = np.array([[z2f(a), z2f(b)] for a, b in ivs], dtype=np.float64)
+        try:
+            Livetime(arr)
+            impl = True
+        except ValueError:
+            impl = False
+        except Exception as ex:
+            impl = 'raises-' + exc_name(ex)
+        want = all(a <= b for a, b in ivs) and all(ivs[j][1] <= ivs[j + 1][0] for j in range(m - 1))
+        if impl != want:
+            ctx.violation('Livetime.assert_mjd_intervals_integrity', 'accepts-or-rejects-wrongly',
+                          f'{kind}: accepted={impl}, sorted-and-non-overlapping={want}',
+                          case={'ivs': ivs, 'scale': SCALE}, impl=impl, predicate='accepted <-> sorted, non-overlapping')
+        model_exprs.append(f'integrity {zpairs(ivs)}')
+        checks.append(('integrity', {'ivs': ivs, 'scale': SCALE}, impl))
+        ctx.case({'integrity': ivs})
+    good = np.array([[1., 2.], [3., 4.]])
+    for bad, exc in [(good.astype(np.float32), TypeError), (good.tolist(), TypeError), (good.reshape(4), ValueError),
+                     (good.reshape(1, 4), ValueError), (np.zeros((2, 2, 2)), ValueError)]:
+        try:
+            Livetime(bad)
+            got = None
+        except Exception as ex:
+            got = type(ex)
+        if got is not exc:
+            ctx.violation('Livetime.assert_mjd_intervals_integrity', 'malformed-array-not-rejected',
+                          f'expected {exc.__name__}, got {got}', case={'array': repr(bad)[:80]})
+
+
 def views(ctx, lt, ivs, when, hist):
     """the cheap accessors derived from the interval array; they must describe
     the interval set the object holds NOW (also on a re-used object)"""
@@ -416,7 +520,7 @@ def canon_model(kind, v):
     """bring the parsed Coq value to the implementation's canonical form"""
     if kind == 'is_on':
         return list(v)
-    if kind == 'livetime':
+    if kind in ('livetime', 'integrity'):
         return v
     if isinstance(v, tuple) and v[0] == 'Err':
         return ['Err', v[1]]
@@ -507,6 +611,8 @@ def run(ctx):
             shared = run_case(ctx, Livetime, get_data_subset, DatasetData, DFRA, c, model_exprs, checks, reuse=shared)
         else:
             run_case(ctx, Livetime, get_data_subset, DatasetData, DFRA, c, model_exprs, checks)
+    edge_rounding_probe(ctx, Livetime)
+    integrity_stream(ctx, Livetime, rng, model_exprs, checks, ctx.budget(30, 400))
     ctx.sample({'ivs_days': [[z2f(a), z2f(b)] for a, b in cases[-1]['ivs']][:6],
                 'windows': [(k, as_float_window(a), as_float_window(b)) for k, a, b in cases[-1]['windows']][:4]})
     if ctx.model_ok:
@@ -524,6 +630,10 @@ def replay(ctx, rp):
     from skyllh.core.dataset import get_data_subset, DatasetData
     from skyllh.core.storage import DataFieldRecordArray as DFRA
     c = rp.get('case') or {}
+    if c.get('float_ivs'):
+        edge_rounding_probe(ctx, Livetime)
+        ctx.case(c)
+        return
     ivs = [tuple(p) for p in c.get('ivs', [])]
     if not ivs:
         ctx.notes.append('replay file has no concrete input (broken obligation): re-running the full check')
